@@ -5,6 +5,9 @@ from . import core, src2v
 PROPS = {
     # id: (property .v file, gen tables it needs, runner module)
     'C14': ('theories/Properties/C14.v', ['Routes'], 'c14'),
+    'C11': ('theories/Properties/C11.v', ['MeshLayout'], 'c11'),
+    'C12': ('theories/Properties/C12.v', ['ProtoLayout'], 'c12'),
+    'C13': ('theories/Properties/C13.v', ['ImageLayout', 'FormatNames'], 'c13'),
 }
 
 
